@@ -1,10 +1,11 @@
 /-
 Driver ops of C03/C18 part CobBytes (served by `gmodel`, lean/Main.lean):
 
-  c03.cobbytes.ser <src> V<fill> K<hex>=<cov> …
+  c03.cobbytes.ser <src> V<fill> [D<dm>] K<hex>=<cov> …
       src as in c03.cob.tree; fill = comma-separated `<path>/<attr>=<hex>` (path = child indices
       from the root joined by `.`, attr = line-rate | branch-rate | timestamp): the bytes the
-      implementation printed for the float attributes; functions are taken in the order given
+      implementation printed for the float attributes; the function tables may come in any order:
+      the model lists them by name (`Writers.FnOrder.coberturaBytes`); `D…` see Drv/C03FnOrder
       -> `ok <hex of the report bytes>` | `panic`
   c03.cobbytes.parse <0|1> <hex>      (1 = skip indentation between tags)
       -> `ok <tree>` | `none`   tree as in c03.cob.tree (every value `x<hex>`, document order)
@@ -55,13 +56,16 @@ def fillOf (tab : List ((List Nat × String) × List Nat)) : Fill := fun p k =>
   | none => []
 
 def handleSer : List String → String
-  | src :: fill :: entries =>
-    match Grcov.Drv.CobAde.parseSrc src, parseFill fill, parseEntriesOrdered entries with
-    | some src, some tab, some rs =>
-      match Grcov.Writers.CobAde.cobertura src rs with
-      | .ok d => "ok " ++ toHex (reportBytes (fillOf tab) d)
-      | .panic _ => "panic"
-    | _, _, _ => "bad-op"
+  | src :: fill :: args =>
+    match Grcov.Drv.FnOrder.takeDm args with
+    | some (dm, entries) =>
+      match Grcov.Drv.CobAde.parseSrc src, parseFill fill, parseEntriesOrdered entries with
+      | some src, some tab, some rs =>
+        match Grcov.Writers.FnOrder.coberturaBytes dm (fillOf tab) src rs with
+        | .ok b => "ok " ++ toHex b
+        | .panic _ => "panic"
+      | _, _, _ => "bad-op"
+    | none => "bad-op"
   | _ => "bad-op"
 
 def handleParse : List String → String
